@@ -260,7 +260,7 @@ func runC32TLBOnce(cs c32TLBCase, cutTime uint64, controlled bool) (string, []li
 			return "tlb " + hist + " not-quiescent", nil
 		}
 		c32Stats.panics++
-		if c32Ctx != nil && c32Stats.panics <= 2 {
+		if c32Ctx != nil && c32Stats.panics <= 1 {
 			c32Ctx.Note("not judged, run panics: TLB script %x history %s cut t=%d: %s", cs.VAddrs, hist, cutTime, msg)
 		}
 		return "tlb " + hist + " run-panics(not-judged)", nil
@@ -293,6 +293,9 @@ func enumC32TLB(c *lib.Ctx, yield func(c32TLBCase) bool) {
 	alpha := []uint64{0x1000, 0x2000, 0x3000}
 	k := lib.Pick(c, 2, 3)
 	hists := append([]string{""}, c32Histories...)
+	if !c.Thorough() {
+		hists = []string{"", "reset", "pause-reset-enable", "drain-reset-enable", "pause-enable"}
+	}
 	for _, tl := range []int{2, 4} {
 		for _, pl := range []int{1, 6} {
 			for _, h := range hists {
